@@ -33,6 +33,8 @@ pub enum FK {
     UnknownField,
     TypeConfusion,
     WrongDocument,
+    UnionReorder,
+    UnionMismatch,
     ByteFlip,
     // parameters
     ParamDrop,
@@ -68,6 +70,8 @@ impl FK {
             FK::UnknownField => "unknown_field",
             FK::TypeConfusion => "type_confusion",
             FK::WrongDocument => "wrong_document",
+            FK::UnionReorder => "union_reorder",
+            FK::UnionMismatch => "union_mismatch",
             FK::ByteFlip => "byte_flip",
             FK::ParamDrop => "param_drop",
             FK::ParamDup => "param_dup",
@@ -91,6 +95,7 @@ impl FK {
                 | FK::LeadingWs
                 | FK::ShortWrite
                 | FK::Retry
+                | FK::UnionReorder
         )
     }
 }
@@ -211,6 +216,8 @@ fn fault_counter(k: FK) -> &'static str {
         FK::UnknownField => "fault.unknown_field_fired",
         FK::TypeConfusion => "fault.type_confusion_fired",
         FK::WrongDocument => "fault.wrong_document_fired",
+        FK::UnionReorder => "fault.union_reorder_fired",
+        FK::UnionMismatch => "fault.union_mismatch_fired",
         FK::ByteFlip => "fault.byte_flip_fired",
         FK::ParamDrop => "fault.param_drop_fired",
         FK::ParamDup => "fault.param_dup_fired",
@@ -453,6 +460,123 @@ pub fn splice_unknown_with(t: &mut Tape, ty: &Ty, doc: &mut Value, name: &str, v
     } else {
         false
     }
+}
+
+/// Rewrites one union value of the document by hand (a value tree cannot choose member order).
+/// `mismatch == false`: the same union, tag first or value first (both are the same JSON object).
+/// `mismatch == true`: tag and member no longer name the same variant - another declared variant,
+/// an unknown name on either side, or two different unknown names - in either order.
+/// Returns the raw text to put in place of `RAW_PLACEHOLDER` and a label.
+pub fn tamper_union(t: &mut Tape, ty: &Ty, doc: &mut Value, alpha: &str, mismatch: bool) -> Option<(String, String)> {
+    fn walk(ty: &Ty, v: &Value, path: &mut Vec<PathEl>, out: &mut Vec<(Vec<PathEl>, Vec<String>)>) {
+        let ir = ir();
+        match ty {
+            Ty::Prim(_) => {}
+            Ty::Opt(i) => {
+                if !v.is_null() {
+                    walk(i, v, path, out)
+                }
+            }
+            Ty::List(i) | Ty::Set(i) => {
+                if let Value::Array(a) = v {
+                    for (idx, x) in a.iter().enumerate() {
+                        path.push(PathEl::Idx(idx));
+                        walk(i, x, path, out);
+                        path.pop();
+                    }
+                }
+            }
+            Ty::Map(_, vt) => {
+                if let Value::Object(m) = v {
+                    for (k, x) in m {
+                        path.push(PathEl::Key(k.clone()));
+                        walk(vt, x, path, out);
+                        path.pop();
+                    }
+                }
+            }
+            Ty::Ref(n) => match &ir.defs[n] {
+                Def::Alias(i, _) => walk(i, v, path, out),
+                Def::Enum(_) => {}
+                Def::Object(fields) => {
+                    if let Value::Object(m) = v {
+                        for (f, fty) in fields {
+                            if let Some(x) = m.get(f) {
+                                path.push(PathEl::Key(f.clone()));
+                                walk(fty, x, path, out);
+                                path.pop();
+                            }
+                        }
+                    }
+                }
+                Def::Union(fields) => {
+                    if let Value::Object(m) = v {
+                        if let Some(Value::String(tag)) = m.get("type") {
+                            if m.len() == 2 && m.contains_key(tag) {
+                                out.push((path.clone(), fields.iter().map(|(f, _)| f.clone()).collect()));
+                            }
+                            if let Some((f, fty)) = fields.iter().find(|(f, _)| f == tag) {
+                                if let Some(x) = m.get(f) {
+                                    path.push(PathEl::Key(f.clone()));
+                                    walk(fty, x, path, out);
+                                    path.pop();
+                                }
+                            }
+                        }
+                    }
+                }
+            },
+        }
+    }
+    let mut out = Vec::new();
+    walk(ty, doc, &mut Vec::new(), &mut out);
+    if out.is_empty() {
+        return None;
+    }
+    let (path, declared) = t.pick(&out).clone();
+    let mut cur = doc;
+    for el in &path {
+        cur = match el {
+            PathEl::Idx(i) => &mut cur[*i],
+            PathEl::Key(k) => &mut cur[k.as_str()],
+        };
+    }
+    let tag = cur["type"].as_str()?.to_string();
+    let member = cur.get(&tag)?.clone();
+    let unknown = |t: &mut Tape, salt: &str| -> String {
+        // names on both sides of "type" in sort order, never a declared one
+        format!("{}{}{}", t.pick(&["aa", "zz", "Type", "type_"]), alpha, salt)
+    };
+    let (new_tag, new_member, what) = if !mismatch {
+        (tag.clone(), tag.clone(), "same variant")
+    } else {
+        match t.draw(4) {
+            0 if declared.len() > 1 => {
+                let others: Vec<&String> = declared.iter().filter(|d| **d != tag).collect();
+                (t.pick(&others).to_string(), tag.clone(), "tag names another declared variant")
+            }
+            1 => (unknown(t, ""), tag.clone(), "unknown tag, declared member"),
+            2 => (tag.clone(), unknown(t, ""), "declared tag, unknown member"),
+            _ => (unknown(t, "a"), unknown(t, "b"), "two different unknown names"),
+        }
+    };
+    let value_first = t.chance(1, 2);
+    let k_tag = serde_json::to_string(&new_tag).ok()?;
+    let k_member = serde_json::to_string(&new_member).ok()?;
+    let v_member = serde_json::to_string(&member).ok()?;
+    let raw = if value_first {
+        format!("{{{}:{},\"type\":{}}}", k_member, v_member, k_tag)
+    } else {
+        format!("{{\"type\":{},{}:{}}}", k_tag, k_member, v_member)
+    };
+    *cur = Value::String(RAW_PLACEHOLDER.into());
+    Some((raw, format!("{}, {} (type={:?} member={:?})", what, if value_first { "value first" } else { "tag first" }, new_tag, new_member)))
+}
+
+/// Puts `raw` where the placeholder string stands.
+pub fn substitute_raw(bytes: Vec<u8>, raw: &str) -> Vec<u8> {
+    let needle = format!("\"{}\"", RAW_PLACEHOLDER);
+    String::from_utf8(bytes).expect("serde_json output is UTF-8").replacen(&needle, raw, 1).into_bytes()
 }
 
 /// The name of an injected member: usually short, sometimes long, non-ASCII or in need of escaping.
@@ -916,6 +1040,26 @@ pub fn apply_request_faults(
                 }
             }
         }
+        if still_json && !fired.iter().any(|f| matches!(f.kind, FK::TypeConfusion)) {
+            let kind = if want(plan, FK::UnionMismatch) {
+                Some(FK::UnionMismatch)
+            } else if want(plan, FK::UnionReorder) {
+                Some(FK::UnionReorder)
+            } else {
+                None
+            };
+            if let (Some(kind), Some(ty), Ok(mut v)) = (kind, &body_ty, serde_json::from_slice::<Value>(&bytes)) {
+                // (no byte-for-byte check here: the real serializer writes the tag first, a value
+                // tree sorts it last; the document is the same)
+                {
+                    if let Some((raw, label)) = ctx.with_tape(|t| tamper_union(t, ty, &mut v, &plan.alpha, kind == FK::UnionMismatch)) {
+                        bytes = substitute_raw(serde_json::to_vec(&v).unwrap(), &raw);
+                        let expect = if kind == FK::UnionMismatch { Expect::Reject { code: "InvalidArgument", param: None } } else { Expect::Transparent };
+                        fire(ctx, plan, &mut fired, kind, label, expect);
+                    }
+                }
+            }
+        }
         if still_json && want(plan, FK::Pretty) {
             if let Ok(v) = serde_json::from_slice::<Value>(&bytes) {
                 // only when plain re-serialisation is lossless for this document
@@ -997,7 +1141,7 @@ pub fn apply_request_faults(
         }
     }
     let json_now = wire.header("content-type") == Some(JSON_CT);
-    if json_now && !sent.streaming && !fired.iter().any(|f| matches!(f.kind, FK::UnknownField | FK::TypeConfusion)) && want(plan, FK::WrongDocument) {
+    if json_now && !sent.streaming && !fired.iter().any(|f| matches!(f.kind, FK::UnknownField | FK::TypeConfusion | FK::UnionMismatch | FK::UnionReorder)) && want(plan, FK::WrongDocument) {
         // a different, perfectly well-formed document
         let d: &[u8] = ctx.with_tape(|t| *t.pick(&[&b"null"[..], b"{}", b"[]", b"0", b"\"x\"", b"true", b"[null]", b"{\"type\":\"x\"}", b"1e999", b" null "]));
         bytes = d.to_vec();
@@ -1138,6 +1282,25 @@ pub fn apply_response_faults(
                 }
             }
         }
+        {
+            let kind = if want(plan, FK::UnionMismatch) {
+                Some(FK::UnionMismatch)
+            } else if want(plan, FK::UnionReorder) {
+                Some(FK::UnionReorder)
+            } else {
+                None
+            };
+            if let (Some(kind), Some(ty), Ok(mut v)) = (kind, &ret_ty, serde_json::from_slice::<Value>(&bytes)) {
+                {
+                    if let Some((raw, label)) = ctx.with_tape(|t| tamper_union(t, ty, &mut v, &plan.alpha, kind == FK::UnionMismatch)) {
+                        bytes = substitute_raw(serde_json::to_vec(&v).unwrap(), &raw);
+                        // a client, too, must refuse a union whose tag and member disagree
+                        let expect = if kind == FK::UnionMismatch { Expect::Reject { code: "InvalidArgument", param: None } } else { Expect::Transparent };
+                        fire(ctx, plan, &mut fired, kind, label, expect);
+                    }
+                }
+            }
+        }
         if want(plan, FK::TypeConfusion) {
             if let Ok(mut v) = serde_json::from_slice::<Value>(&bytes) {
                 if serde_json::to_vec(&v).ok().as_deref() == Some(&bytes[..]) {
@@ -1160,7 +1323,7 @@ pub fn apply_response_faults(
             fire(ctx, plan, &mut fired, FK::TrailingWs, "2".into(), Expect::Transparent);
         }
     }
-    if is_json && !resp.streaming && wire.status != 204 && !fired.iter().any(|f| matches!(f.kind, FK::UnknownField | FK::TypeConfusion)) && want(plan, FK::WrongDocument) {
+    if is_json && !resp.streaming && wire.status != 204 && !fired.iter().any(|f| matches!(f.kind, FK::UnknownField | FK::TypeConfusion | FK::UnionMismatch | FK::UnionReorder)) && want(plan, FK::WrongDocument) {
         let d: &[u8] = ctx.with_tape(|t| *t.pick(&[&b"null"[..], b"{}", b"[]", b"0", b"\"x\"", b"true", b"[null]", b"{\"type\":\"x\"}", b"1e999", b" null "]));
         bytes = d.to_vec();
         fire(ctx, plan, &mut fired, FK::WrongDocument, String::from_utf8_lossy(d).to_string(), Expect::Judge);
